@@ -58,7 +58,7 @@ def violates(run, case, impl, model):
     # delivered twice, or a delivery goes elsewhere than the model's (exactly-once destination).
     return True
 
-LEVEL_TEXT = ("Proved for all op lists and all interleavings of the single-promise model: resolve_once, pipelined_exactly_once, client_idempotent, no_stuck, waiters_released, proxy_clients_resolved_and_released, result_read_alive; on the model with Join (joined chains, any number of promises): exactly-once count part, mutex discipline (ordered locking, mu free at rest), resolve_once per promise, PipelineCaller only before resolution. Refuted on earlier/seeded code variants: F11, resolve deadlock, result lifetime, Join nil table (F11c), seeded C11-3. Model tied to answer.go by synctest histories (sequenced, with Join, concurrent launch groups checked against the set of outcomes the model allows).")
-LEVEL_NOTE = "Level other: on the joined-chain model no_stuck, waiters, proxies and the second half of the destination property are not proved (they are for a single promise); no relation theorem between the two models. See docs/C11.md for what the chain proofs need."
+LEVEL_TEXT = ("Proved for all op lists and all interleavings. Single-promise model: resolve_once, pipelined_exactly_once, client_idempotent, no_stuck, waiters_released, proxy_clients_resolved_and_released, result_read_alive. Model with Join (joined chains, any number of promises): exactly-once (count and destination), resolve_once per promise, mutex discipline and mu free at rest, forest invariant under the Join precondition, no deadlock on the mutexes, client-table reference conservation. Refuted: F11, resolve deadlock, result lifetime, F11c, seeded C11-3 and C11-r2-1, self-join and cyclic join. Model tied to answer.go by synctest histories (sequenced, with Join, launch groups checked against the explored outcome set).")
+LEVEL_NOTE = "Level other: on the joined-chain model the channel part of no_stuck, waiters, proxy targets and the per-chain release statement are not proved (they are for a single promise); no relation theorem between the two models. See docs/C11.md."
 TECHNIQUE = "Coq proof over an executable small-step model + extracted-model/implementation differential run under synctest"
 DESIGN_REF = "DESIGN.md section 6, C11"
